@@ -105,5 +105,5 @@ def build():
 
 
 # slots straddle the middle of the 4K-word program memory so that both RJMP limits are reachable
-ISAS = [Isa("AVR", "AT90S8515", build(), "c", gran=2, slot=2, base=0x7FF - 250, maxaddr=0xfff, straddle=True,
+ISAS = [Isa("AVR", "AT90S8515", build(), "c", pcsym="*", gran=2, slot=2, base=0x7FF - 250, maxaddr=0xfff, straddle=True,
             golden=[("t_avr", {"at90s8515": True})])]
